@@ -171,3 +171,77 @@ PROPS["C02"] = {
          "thorough": {"checks": 300, "shards": 4, "timeout": 1700, "race": True, "env": {"VERIF_C02_REPS": 4, "VERIF_GOMAXPROCS": 4}}},
     ],
 }
+
+_TREE_ASSUME = ["stub VM stands in for LuaJIT", "permissive test consensus (every block valid, longest chain) unless stated", "memorydb is a correct store"]
+
+PROPS["C05"] = {
+    "title": "Chain database consistency after any history of block arrivals",
+    "level": "exploration",
+    "technique": "PBT (rapid) over generated block trees x arrival schedules on a real node; invariant oracle over the public query surface and a raw key scan after every arrival",
+    "level_text": ("Generated block trees (1-3 branches, shared prefixes, transactions shared between / conflicting across branches, blocks invalid in one way on any branch) built by the real producer path, "
+                   "delivered to a real node through the validator path in generated orders (parents first, children first, permutations, duplicates) followed by a parents-first pass; after EVERY arrival: "
+                   "best block linked to genesis, height index, tx index and receipts for every main-chain tx, abandoned-only txs not confirmed, receipts per main block, state root = best block's root and fully readable, "
+                   "in-memory tip = persisted tip, no height entry above the tip, no reorg marker. Exhaustive unit: every arrival permutation of every tree shape with up to 4 blocks (quick) / 5 (thorough)."),
+    "level_note": "Blocks reach the node only through addBlock (as from the network). The orphan pool drops a second orphan with the same parent by design; the invariants do not depend on that. DPoS LIB veto is exercised by C08, not here.",
+    "rule": ("a case = (configuration, block tree, arrival schedule); non-trivial = the schedule caused at least one reorganisation or one orphan resolution; distinct = distinct (configuration, tree description, schedule)."),
+    "assumptions": _TREE_ASSUME,
+    "units": [
+        {"pkg": "verifx/tree", "run": "^TestC05Arrivals$",
+         "quick": {"checks": 120, "shards": 12, "timeout": 400},
+         "thorough": {"checks": 2500, "shards": 16, "timeout": 1700}},
+    ],
+}
+
+PROPS["C07"] = {
+    "title": "Fork choice: reorganisation reaches the longest valid branch and its exact state",
+    "level": "exploration",
+    "technique": "PBT (rapid) over competing branches x arrival interleavings; step oracle (strictly-longer-only switches, longest completely stored valid branch is best, state root = best root, abandoned-only txs re-pooled) + differential against a reference node fed only the winning branch",
+    "level_text": ("Generated trees of 2-3 competing branches (fork depth 0-5, overlapping and conflicting transactions, an invalid block possible at every position) delivered in generated interleavings; after every arrival the best block may only "
+                   "have moved to a strictly higher valid block, must be at least as high as every completely stored valid branch, the world state root is the best block's, the set of transactions offered to the pool equals "
+                   "(abandoned-only minus new-branch) and a refused branch leaves the consensus status at the best block; at the end the full state dump and the active system parameters equal those of a fresh node that only executed the winning branch."),
+    "level_note": "Equal-height ties: first seen wins, any tip of maximal height is accepted when several become available in one step. The DPoS below-LIB veto is checked in C08 with the real DPoS status.",
+    "rule": ("a case = (configuration, tree, schedule); non-trivial = a reorganisation rolling back >=2 blocks, or a reorganisation plus a refused delivery in the same history; distinct by the triple."),
+    "assumptions": _TREE_ASSUME,
+    "units": [
+        {"pkg": "verifx/tree", "run": "^TestC07ForkChoice$",
+         "quick": {"checks": 120, "shards": 12, "timeout": 400},
+         "thorough": {"checks": 2500, "shards": 16, "timeout": 1700}},
+        {"pkg": "verifx/tree", "run": "^TestC07KnownValidPrefix$", "all": {"shards": 1, "timeout": 120}},
+    ],
+}
+
+PROPS["C03"] = {
+    "title": "Transaction atomicity: a tx applies fully, as fee+nonce only, or not at all",
+    "level": "exploration",
+    "technique": "PBT (rapid): per-transaction differential of the full buffered state against the three allowed outcomes; invalid-block no-residue comparison (state dump, raw chain store, indexes) on a real node",
+    "level_text": ("(a) generated blocks of mixed succeeding / run-time failing / to-be-rejected transactions on the same accounts and governance storage, executed one by one through the real executor: after each transaction the full state "
+                   "(all accounts + all storage, via Update on a copy) must equal the pre-state (rejected), or differ from it in exactly payer fee + sender nonce with an ERROR receipt (run-time failure), or carry a non-ERROR receipt; (b) generated "
+                   "trees with blocks invalid at every position (bad state/receipts/tx root, extra bad-nonce tx, consistent-but-forged txs): a refused delivery leaves best block, state root, full dump, consensus status, all index invariants and - for a direct child of the tip - the raw chain store unchanged, and valid blocks are still accepted afterwards."),
+    "level_note": "The Lua VM is the pure-Go stub: run-time failures are the stub's `fail` op, the V4 recipient rule, not-a-contract calls, governance execution errors. SQL state is out of reach.",
+    "rule": ("(a) a case = configuration + prefix history + one block; non-trivial = a failing or rejected transaction preceded in the same block by a successful one touching the same account/contract. (b) a case = tree + schedule; non-trivial = a refused delivery on a chain of height >=2 or a failed reorganisation with the invalid block at position >=2."),
+    "assumptions": _TREE_ASSUME,
+    "units": [
+        {"pkg": "verifx/tree", "run": "^TestC03InvalidBlocks$",
+         "quick": {"checks": 100, "shards": 10, "timeout": 400},
+         "thorough": {"checks": 2000, "shards": 16, "timeout": 1700}},
+        {"pkg": "verifx/tree", "run": "^TestC03RegressionFailedReorg$", "all": {"shards": 1, "timeout": 120}},
+    ],
+}
+
+PROPS["C04"] = {
+    "title": "Authorisation and replay protection for executed transactions",
+    "level": "exploration",
+    "technique": "PBT (rapid): history invariant over the executed main chain with an independent signature/chain-id verifier; forged-twin blocks (everything consistent except the authorisation) must be refused",
+    "level_text": ("Generated trees whose candidate lists contain replays of included transactions (same and other branches), nonce gaps and duplicates, and blocks in which one transaction is replaced by a forged twin (signed by another key, carrying a genuine signature made for another body, "
+                   "or signed for another chain id) with tx root and receipts root recomputed so that ONLY the authorisation check can refuse the block. Oracle: along the final main chain every account's nonces are 1,2,3,..., no tx id repeats, every tx verifies under an independent "
+                   "re-implementation of digest + ECDSA + chain-id binding, state nonces equal the executed counts, and no block with a forged tx is ever on the main chain."),
+    "level_note": "Name-account senders (owner-signed) are not generated. Pool admission of forged transactions is covered by the C13/C14 pool units.",
+    "rule": ("a case = tree + schedule; non-trivial = the tree contains a forged-twin block, an extra bad-nonce transaction, a borrowed (replayed/shared) transaction or a nonce-faulted candidate; distinct by (configuration, tree, schedule)."),
+    "assumptions": _TREE_ASSUME + ["secp256k1 ECDSA (btcec) and sha256 are trusted"],
+    "units": [
+        {"pkg": "verifx/tree", "run": "^TestC04ForgedBlocks$",
+         "quick": {"checks": 100, "shards": 10, "timeout": 400},
+         "thorough": {"checks": 2000, "shards": 16, "timeout": 1700}},
+        {"pkg": "verifx/tree", "run": "^TestC04RegressionStaleVerify$", "all": {"shards": 1, "timeout": 120}},
+    ],
+}
